@@ -88,9 +88,18 @@ class Batch:
         self.lines += lines
 
     def run(self, ctx):
+        import traceback
         outs = ctx.lean.drive(self.lines)
         for s, n, cb in self.jobs:
-            cb(outs[s:s + n])
+            try:
+                cb(outs[s:s + n])
+            except Exception as e:   # a public call of the implementation raised inside a comparison
+                tb = traceback.format_exc().strip().splitlines()
+                where = next((l.strip() for l in reversed(tb) if "/cuqi/" in l), tb[-1])
+                d = {"lines": self.lines[s:s + n][:2], "exception": repr(e)[:200], "where": where[:200]}
+                ctx.case("crash", d)
+                ctx.fail("crash:" + type(e).__name__, d, "the comparison runs", repr(e)[:200],
+                         "a call on the constructed test problem raised during the comparison")
 
 
 def geom_compatible(g1, g2):
@@ -132,7 +141,7 @@ def check_components(ctx, B, name, tp, desc):
             "exactData": "None" if info.exactData is None else ("exactData" if info.exactData is tp.exactData else "other"),
             "info": "1" if info.infoString is not None else "0",
             "misc": "1" if info.Miscellaneous is not None else "0",
-            "likdist": "dataDist" if tp.likelihood.distribution.mean is m or getattr(tp.likelihood.distribution.mean, "_forward_func", None) is not None else "other",
+            "likdist": "dataDist" if tp.likelihood.distribution.mean is m else "other",
             "prior": "prior" if tp.posterior.prior is tp.prior else "other",
         }
         ctx.case("components", {**desc, "check": "components"})
@@ -171,7 +180,7 @@ def check_components(ctx, B, name, tp, desc):
     B.add([f"comp {name}"], cb)
 
 
-def check_logd(ctx, B, name, tp, desc, cov_stated, fwd_model, rs, npts=2, scale=1.0):
+def check_logd(ctx, B, name, tp, desc, cov_stated, fwd_model, rs, npts=2, scale=1.0, positive=False):
     """posterior.logd(x) = Gaussian loglik(stated cov) + logprior(x).
     tie: quadratic form through the Lean model (data - model operator applied to x);
     oracle: the same with the implementation's own forward."""
@@ -181,8 +190,15 @@ def check_logd(ctx, B, name, tp, desc, cov_stated, fwd_model, rs, npts=2, scale=
     cov = np.broadcast_to(np.asarray(cov_stated, dtype=float).ravel(), (m,)) if np.size(cov_stated) > 1 else np.full(m, float(np.asarray(cov_stated).ravel()[0]))
     if not np.all(np.isfinite(cov)) or np.any(cov <= 0):
         return
+    if float(cov.min()) < 1e-18 * float(cov.max()):
+        # an exact datum that is zero up to FFT round-off: the scaled variance is ~1e-34 and the quadratic form
+        # amplifies 1e-16 differences to O(1); nothing can be compared (same input class as the zero-exact-data finding)
+        ctx.note(f"{name}: log-density comparison skipped, scaled variance numerically zero at {desc}")
+        return
     logdet = float(np.sum(np.log(cov)))
     pts = [np.round(rs.randn(n) * 2.0) / 2.0 * scale for _ in range(npts)]
+    if positive:
+        pts = [np.abs(x) + 0.5 for x in pts]
     lines, keep = [], []
     for x in pts:
         try:
@@ -341,6 +357,7 @@ def case_deconv1d(ctx, cuqi, T, B1, B2, cfg, sid):
     cls = sym_class(P)
     kbase = f"Deconvolution1D:operator"
     lines = [f"dc1 {bc} {dim} {qv(P)}", f"dc1x {bc} {dim} {qv(P)} {qv(x_leaf)}"]
+    yref_holder = [np.zeros(0)]
 
     def cb(outs):
         ctx.case("deconv1d", desc, nontrivial=(len(P) > 1))
@@ -354,6 +371,7 @@ def case_deconv1d(ctx, cuqi, T, B1, B2, cfg, sid):
         r0, r1 = kv(outs[0]), kv(outs[1])
         Aasm, Adoc = fmat(r0["asm"], dim), fmat(r0["doc"], dim)
         yasm, ydoc = fvec(r1["asm"]), fvec(r1["doc"])
+        yref_holder[0] = yasm
         scaled = {"gaussian": False, "scaledgaussian": True}.get(ntype.lower())
         if tp is None:
             # refusals: unknown noise type, zero variance of the scaled noise
@@ -423,7 +441,9 @@ def case_deconv1d(ctx, cuqi, T, B1, B2, cfg, sid):
 
     def cb_refused(o):
         ctx.case("deconv1d-noise-refusal", desc)
-        if o[0] == "err:zero-cov":
+        ym = np.abs(yref_holder[0])
+        numerically_zero = "infs or NaNs" in (err or "") and ym.size and float(ym.min()) <= 1e-12 * float(ym.max())
+        if o[0] == "err:zero-cov" or numerically_zero:
             ctx.fail("Deconvolution1D:noise:scaledgaussian:zero-exact-data", desc, "data = exactData where exactData = 0 (zero noise level)", err,
                      "scaled Gaussian noise with an exactly zero exact datum: the constructor raises instead of producing data")
         else:
@@ -560,6 +580,7 @@ def case_deconv2d(ctx, cuqi, T, B1, B2, cfg, sid):
     cls = sym_class(P)
     n2 = dim * dim
     lines = [f"dc2m {bc} {dim} {qm(P)}", f"dc2 {bc} {dim} {qm(P)} {qv(x_leaf)}"]
+    yref_holder = [np.zeros(0)]
 
     def cb(outs):
         ctx.case("deconv2d", desc, nontrivial=(P.shape[0] > 1))
@@ -571,6 +592,7 @@ def case_deconv2d(ctx, cuqi, T, B1, B2, cfg, sid):
         r0 = kv(outs[0])
         Aasm, Adoc = fmat(r0["asm"], n2), fmat(r0["doc"], n2)
         ydoc = fvec(outs[1])
+        yref_holder[0] = ydoc
         scaled = {"gaussian": False, "scaledgaussian": True}.get(ntype.lower())
         if tp is None:
             if scaled is None:
@@ -624,7 +646,9 @@ def case_deconv2d(ctx, cuqi, T, B1, B2, cfg, sid):
 
     def cb_refused(o):
         ctx.case("deconv2d-noise-refusal", desc)
-        if o[0] == "err:zero-cov":
+        ym = np.abs(yref_holder[0])
+        numerically_zero = "infs or NaNs" in (err or "") and ym.size and float(ym.min()) <= 1e-12 * float(ym.max())
+        if o[0] == "err:zero-cov" or numerically_zero:
             ctx.fail("Deconvolution2D:noise:scaledgaussian:zero-exact-data", desc, "data = exactData where exactData = 0 (zero noise level)", err,
                      "scaled Gaussian noise with an exactly zero exact datum: the constructor raises instead of producing data")
         else:
@@ -676,7 +700,7 @@ def field_kwargs(field, map_names=("map", "imap")):
     return {}
 
 
-def snr_checks(ctx, B2, name, tp, desc, S, snr, sid, fwd_model, logd_scale=1.0):
+def snr_checks(ctx, B2, name, tp, desc, S, snr, sid, fwd_model, logd_scale=1.0, positive=False):
     """noise of the PDE/Abel problems: sigma = ||exactData||/SNR, data = exactData + sigma*xi"""
     ye = A1(tp.exactData)
     data = A1(tp.data)
@@ -704,7 +728,7 @@ def snr_checks(ctx, B2, name, tp, desc, S, snr, sid, fwd_model, logd_scale=1.0):
     if math.isfinite(sig_used):
         B2.add([f"snr {q(sig_used)} {q(snr)} 1/1000000000 {qv(ye)} {qv(xi)}"], cb)
     rs = np.random.RandomState(sid + 7)
-    check_logd(ctx, B2, name, tp, desc, np.array([sigma_stated ** 2]), fwd_model, rs, npts=2, scale=logd_scale)
+    check_logd(ctx, B2, name, tp, desc, np.array([sigma_stated ** 2]), fwd_model, rs, npts=2, scale=logd_scale, positive=positive)
     check_components(ctx, B2, name, tp, desc)
 
 
@@ -804,7 +828,8 @@ def case_poisson(ctx, cuqi, B1, B2, cfg, sid):
             ctx.fail("Poisson1D:exactData", desc, list(yf[:6]), list(ye[:6]), "exactData is not model.forward(exactSolution)")
         if xs_custom is not None and not vclose(xs, np.array(xs_custom), 1e-14):
             ctx.fail("Poisson1D:exactSolution", desc, xs_custom[:6], list(xs[:6]), "exactSolution is not the one passed")
-        snr_checks(ctx, B2, "Poisson1D", tp, desc, S, snr, sid, None, logd_scale=(0.25 if field[0] in ("kl", "map-exp") else 1.0))
+        snr_checks(ctx, B2, "Poisson1D", tp, desc, S, snr, sid, None, logd_scale=(0.25 if field[0] in ("kl", "map-exp") else 1.0),
+                   positive=(field[0] in ("none", "step")))
 
     B1.add(lines, cb)
 
@@ -1055,7 +1080,7 @@ def run(ctx):
         sid[0] += 1
         return sid[0]
 
-    mult = 12 if thorough else 1
+    mult = 5 if thorough else 1
     dims1 = list(range(6, 13)) + ([16, 24, 32] if thorough else [])
 
     # ---- fixed inputs first: DESIGN §5 #16 (asymmetric PSF, every BC), degenerate sizes, refusals
@@ -1118,7 +1143,7 @@ def run(ctx):
     for c in fixed2:
         case_deconv2d(ctx, cuqi, T, B1, B2, c, nid())
     for _ in range(36 * mult):
-        dim = rng.choice([3, 4, 4, 5] + ([6, 8] if thorough else []))
+        dim = rng.choice([3, 4, 4, 5] + ([6] if thorough else []))
         ph = ("arr", [float(rng.randint(0, 5) + (1 if rng.random() < 0.7 else 0)) for _ in range(dim * dim)]) if rng.random() < 0.85 else ("name", rng.choice(["cookie", "satellite", "camera"]))
         k, pr = make_prior(cuqi, rng, dim * dim, geometry=Image2D((dim, dim)))
         cfg = dict(dim=dim, psf=gen_psf2(rng), bc=rng.choice(BC2 + ["Neumann", "Zero", "PERIODIC"]), phantom=ph,
@@ -1137,6 +1162,10 @@ def run(ctx):
         cfg = dict(dim=dim, endpoint=rng.choice([1, 1, 2.0, 0.5]), max_time=rng.choice([0.2, 0.2, 0.05, 0.01, 0.001]), field=gen_field(rng, dim),
                    SNR=rng.choice([200, 50, 10]), obs=rng.choice(["none", "none", "half", "even"]),
                    exactSolution=(None if rng.random() < 0.6 else [float(rng.randint(-2, 5)) for _ in range(dim)]))
+        # sub-grid observation goes through a bicubic spline in (x, t): scipy needs >= 4 nodes and >= 4 time levels
+        levels = int(Fraction(cfg["max_time"]) / (Fraction(5, 11) * (Fraction(cfg["endpoint"]) / (dim + 1)) ** 2)) + 1
+        if cfg["obs"] != "none" and (dim < 4 or levels < 4) and rng.random() < 0.85:
+            cfg["obs"] = "none"
         case_heat(ctx, cuqi, B1, B2, cfg, nid())
     for _ in range(16 * mult):
         dim = rng.choice([3, 4, 5, 6, 8, 12] + ([24, 32] if thorough else []))
